@@ -26,6 +26,10 @@ def specs(tier):
                 J('steady4-%s:F1H2X3' % tag, 'steady', dict(n=4, fallback=fb, exact_time=exact), dict(F=1, H=2, X=3), dict(k=0)),
                 J('steady5-%s:F1H1X4' % tag, 'steady', dict(n=5, fallback=fb, exact_time=exact), dict(F=1, H=1, X=4), dict(k=0)),
             ]
+    # ticks finer than the heartbeat period, with and without client traffic in non-batch mode
+    js += [J('steady3-fb1.5p:G4', 'steady', dict(n=3, fallback=0.015, exact_time=True), dict(G=4), dict(k=0)),
+           J('steady2-nobatch-fb1.5p:G4S2', 'steady', dict(n=2, fallback=0.015, exact_time=True, batch=False), dict(G=4, S=2), dict(k=0)),
+           J('steady2-nobatch-fb3.5p:G7S2', 'steady', dict(n=2, fallback=0.035, exact_time=True, batch=False), dict(G=7, S=2), dict(k=0))]
     js += [J('steady4-fb3.5p:F1X2', 'steady', dict(n=4, fallback=0.035, exact_time=True), dict(F=1, X=2), dict(k=0)),
            J('obs1-steady2-fb1.5p:H3X2', 'steady', dict(n=2, observers=1, fallback=0.015, exact_time=True), dict(H=3, X=2), dict(k=0)),
            J('split4-fb3.5p:F1E2', 'split', dict(n=4, fallback=0.035, exact_time=True), dict(F=1, E=2), dict(k=0)),
